@@ -136,6 +136,7 @@ func vcOpenAndClose(w *voWorld, b vcBounds, p int, reuse *Store) *Store {
 		w.failAt = 1 + w.choose(verifName("failing-call-", p), failurePoints)
 		w.injecting, w.envCalls, w.injected = true, 0, ""
 	}
+	skippedBefore := s.numSnapshotsSkipped.Load() // (the counter of a Store object opened again goes on)
 	err := s.Open()
 	w.injecting = false
 
@@ -149,7 +150,7 @@ func vcOpenAndClose(w *voWorld, b vcBounds, p int, reuse *Store) *Store {
 	vcGateFree("C31-startup-check-holds-the-gate-only-while-it-runs", s)
 
 	// which situation was this? (markers only; whether the fast path is the right decision is C33's business)
-	fast := s.numSnapshotsSkipped.Load() > 0
+	fast := s.numSnapshotsSkipped.Load() > skippedBefore
 	switch {
 	case fast && record.CRC32 == 0:
 		verifReach("startup-check-marker-without-checksum")
